@@ -7,9 +7,11 @@ package rescache
 
 import (
 	"github.com/resgateio/resgate/server/codec"
+	"github.com/resgateio/resgate/server/mq"
 	"github.com/resgateio/resgate/server/reserr"
 )
 
+var _ mq.Client
 var _ = codec.IsValidRID
 var _ = reserr.ErrAccessDenied
 
@@ -24,6 +26,7 @@ var _ = reserr.ErrAccessDenied
 //@   ensures[C04] (result == nil) == (a.Error == nil && a.Get)
 //@   ensures[C04] a.Error != nil ==> result == a.Error
 //@   ensures[C04] a.Error == nil && !a.Get ==> result == reserr.ErrAccessDenied
+//@   ensures result != nil ==> reserr.predErrOK(result)
 //@   assigns nothing
 //@   safety[C15]
 
@@ -32,6 +35,7 @@ var _ = reserr.ErrAccessDenied
 //@   ensures[C05] (result == nil) == (a.Error == nil && (a.Call == "*" || predListHas(a.Call, action)))
 //@   ensures[C05] a.Error != nil ==> result == a.Error
 //@   ensures[C05] a.Error == nil && result != nil ==> result == reserr.ErrAccessDenied
+//@   ensures result != nil ==> reserr.predErrOK(result)
 //@   assigns nothing
 //@   safety[C15]
 //@   loop 1 invariant 0 <= i && i <= e && e <= len(s) && s == a.Call && s != ""
@@ -183,6 +187,156 @@ func SpecMatch(pattern string, hasWild bool, s string) bool {
 //@       (forall k int :: 0 <= k && k < len(t.queue) ==> t.queue[k] == old(t.queue[k+1]))
 //@   ensures[C19] t == nil ==> spawncount() == old(spawncount())
 //@   assigns t.running, t.queue
+//@   safety[C15]
+
+// --- cache boundary used by package server ----------------------------------------
+
+// Set at construction only.
+//@ immutable EventSubscription.ResourceName, EventSubscription.cache, ResourceSubscription.e, ResourceSubscription.query
+//@ immutable Cache.mq, Cache.resetThrottle, Cache.metrics
+
+// Callbacks stored in the per-resource work queue are run exactly once by processQueue.
+//@ pending EventSubscription.queue, EventSubscription.locks
+
+// The messaging client invokes the response callback exactly once (decided for the NATS
+// adapter under C18; assumed here).
+// Deprecation logging.
+//@ drop github.com/resgateio/resgate/server/rescache.(*Cache).deprecated
+
+//@ func mq.Client.SendRequest
+//@   trusted
+//@   resolves cb exactly-once
+//@   callback cb requires err != nil ==> reserr.predErrOK(err)
+//@   assigns nothing
+
+//@ func Subscriber.Loaded
+//@   trusted
+//@   assigns nothing
+//@ func Subscriber.Event
+//@   trusted
+//@   assigns nothing
+//@ func Subscriber.Reaccess
+//@   trusted
+//@   assigns nothing
+//@ func Subscriber.ResourceName
+//@   trusted
+//@   assigns nothing
+//@ func Subscriber.ResourceQuery
+//@   trusted
+//@   assigns nothing
+//@ func Subscriber.CID
+//@   trusted
+//@   assigns nothing
+//@ func codec.Requester.CID
+//@   trusted
+//@   assigns nothing
+//@ func codec.AuthRequester.CID
+//@   trusted
+//@   assigns nothing
+//@ func codec.AuthRequester.HTTPRequest
+//@   trusted
+//@   ensures result != nil
+//@   assigns nothing
+
+//@ func mq.Client.Subscribe
+//@   trusted
+//@   ensures result1 == nil ==> result0 != nil
+//@   assigns nothing
+
+// Well-formedness of the cache index (data-structure invariant, assumed on entry).
+//@ define predCacheOK(c *Cache) bool = c != nil && c.eventSubs != nil &&
+//@     (forall n string :: has(c.eventSubs, n) ==> c.eventSubs[n] != nil && c.eventSubs[n].cache == c)
+
+// getSubscription hands out exactly one use of the entry (creating it with one use if needed),
+// makes the MQ subscription before returning when asked to, and on failure leaves every
+// pre-existing use count unchanged and a newly created entry unused (it is then evicted).
+//@ func (*Cache).getSubscription
+//@   requires predCacheOK(c)
+//@   ensures[C09] result1 == nil ==> result0 != nil && result0.cache == c && has(c.eventSubs, name) && c.eventSubs[name] == result0
+//@   ensures[C09] result1 == nil && old(has(c.eventSubs, name)) ==> result0 == old(c.eventSubs[name]) && result0.count == old(c.eventSubs[name].count) + 1
+//@   ensures[C09] result1 == nil && !old(has(c.eventSubs, name)) ==> fresh(result0) && result0.count == 1 && result0.ResourceName == name
+//@   ensures[C09] result1 == nil && subscribe ==> result0.mqSub != nil
+//@   ensures[C09] !subscribe ==> result1 == nil
+//@   ensures[C09] result1 != nil ==> (forall e *EventSubscription :: !fresh(e) ==> e.count == old(e.count))
+//@   ensures[C09] result1 != nil && !old(has(c.eventSubs, name)) ==> has(c.eventSubs, name) && c.eventSubs[name].count == 0
+//@   ensures[C09] forall n string :: n != name ==> has(c.eventSubs, n) == old(has(c.eventSubs, n)) && c.eventSubs[n] == old(c.eventSubs[n])
+//@   ensures predCacheOK(c)
+//@   assigns elems(c.eventSubs), EventSubscription.count, EventSubscription.mqSub
+//@   safety[C15]
+
+// The per-resource work queue runs every function exactly once, in order.
+//@ func (*EventSubscription).Enqueue
+//@   requires e != nil && e.cache != nil
+//@   resolves[C07] f exactly-once
+//@   ensures[C03] len(e.queue) == old(len(e.queue)) + 1 && e.queue[len(e.queue)-1] == f
+//@   ensures[C03] forall k int :: 0 <= k && k < old(len(e.queue)) ==> e.queue[k] == old(e.queue[k])
+//@   assigns e.queue, elems(e.queue)
+//@   safety[C15]
+
+// sendRequest takes one use of the resource's cache entry before the request is sent and
+// releases exactly that use after the response callback has run.
+//@ func (*Cache).sendRequest
+//@   requires predCacheOK(c) && c.mq != nil
+//@   resolves[C07] cb exactly-once
+//@   callback cb requires err != nil ==> reserr.predErrOK(err)
+//@   assigns pkgstate(rescache), containers()
+//@   safety[C15]
+//@ closure (*Cache).sendRequest#1
+//@   requires eventSub != nil && eventSub.cache != nil
+//@   resolves[C07] cb exactly-once
+//@   safety[C15]
+//@ closure (*Cache).sendRequest#2
+//@   requires eventSub != nil && eventSub.cache != nil && (err != nil ==> reserr.predErrOK(err))
+//@   resolves[C07] cb exactly-once
+//@   ensures[C09] eventSub.count == old(eventSub.count) - 1
+//@   safety[C15]
+
+// Unsubscribe releases exactly the registration it removes: the difference between the uses of
+// the cache entry and the registered subscribers never changes.
+//@ func (*ResourceSubscription).Unsubscribe
+//@   requires rs != nil && rs.e != nil && rs.e.cache != nil
+//@   safety[C15]
+//@ closure (*ResourceSubscription).Unsubscribe#1
+//@   requires rs != nil && rs.e != nil && rs.e.cache != nil
+//@   ensures[C09] rs.e.count - card(rs.subs) == old(rs.e.count - card(rs.subs))
+//@   safety[C15]
+
+//@ func (*Cache).Subscribe
+//@   requires c != nil && sub != nil
+//@   assumes predCacheOK(c)
+//@   assigns pkgstate(rescache), containers()
+
+// Access: exactly one verdict per request; a transport error or a missing result is a denial
+// (the verdict then carries the error), so a verdict is always well formed.
+//@ func (*Cache).Access
+//@   requires c != nil && sub != nil
+//@   assumes predCacheOK(c) && c.mq != nil
+//@   resolves[C07] callback exactly-once
+//@   callback callback requires[C04] access != nil && (access.Error != nil || access.AccessResult != nil)
+//@   assigns pkgstate(rescache), containers()
+//@   safety[C15]
+//@ closure (*Cache).Access#1
+//@   resolves[C07] callback exactly-once
+//@   safety[C15]
+
+//@ func (*Cache).Call
+//@   requires c != nil && req != nil
+//@   assumes predCacheOK(c) && c.mq != nil
+//@   resolves[C07] callback exactly-once
+//@   assigns pkgstate(rescache), containers()
+//@   safety[C15]
+//@ closure (*Cache).Call#1
+//@   resolves[C07] callback exactly-once
+//@   safety[C15]
+
+//@ func (*Cache).Auth
+//@   requires c != nil && req != nil
+//@   assumes predCacheOK(c) && c.mq != nil
+//@   resolves[C07] callback exactly-once
+//@   assigns pkgstate(rescache), containers()
+//@   safety[C15]
+//@ closure (*Cache).Auth#1
+//@   resolves[C07] callback exactly-once
 //@   safety[C15]
 
 // SpecListHas is the executable form of predListHas: a is exactly one of the
